@@ -81,7 +81,8 @@ pub fn run<T: PegParserAdvanced<()> + Debug>(input: &str, u0: u64) -> String {
     if std::env::var("PV_INDENTED").is_ok() {
         // the shipped tracer (what `parse_with_trace` uses; it prints to stderr): same result as the plain parse
         log::set_enabled(false);
-        let t = catch_unwind(AssertUnwindSafe(|| T::parse_advanced::<peginator::IndentedTracer>(input, &ParseSettings::default(), ())));
+        // through the public entry point `PegParser::parse_with_trace` (what users call), not `parse_advanced` directly
+        let t = catch_unwind(AssertUnwindSafe(|| <T as peginator::PegParser>::parse_with_trace(input)));
         log::set_enabled(true);
         let t_s = match t {
             Ok(Ok(v)) => Some(format!("OK {}", canon(&format!("{:?}", v)))),
@@ -179,6 +180,27 @@ fn history_check<W: Write>(
     }
     let mut seq_runs = 0usize;
     let mut diffs: Vec<String> = Vec::new();
+    // a user function that panics in the middle of a (traced) parse on some thread must not change what later parses
+    // return: make the next extern calls panic for a few parses, then switch that off and re-execute everything
+    {
+        crate::hooks::PANIC_NOW.store(true, std::sync::atomic::Ordering::SeqCst);
+        let mut hit = 0usize;
+        for r in records.iter().filter(|r| r.5.contains("X:")).take(40) {
+            let rr = (r.0.clone(), r.2.clone(), r.3.clone(), r.4);
+            let h = std::thread::spawn(move || dispatch(&rr.0, &rr.1, &rr.2, rr.3).unwrap_or_default());
+            if let Ok(s) = h.join() {
+                if s.starts_with("PANIC") {
+                    hit += 1;
+                }
+            }
+            if hit >= 3 {
+                break;
+            }
+        }
+        crate::hooks::PANIC_NOW.store(false, std::sync::atomic::Ordering::SeqCst);
+        crate::log::take();
+        writeln!(out, "#HP\t{}", hit).unwrap();
+    }
     for &k in order.iter().chain(order.iter().rev()) {
         let r = &records[k];
         let got = dispatch(&r.0, &r.2, &r.3, r.4).unwrap_or_default();
